@@ -16,6 +16,7 @@ pub const P_CYCLE_END: u32 = 8;
 pub const P_RX_CLOSED: u32 = 9;
 pub const P_REGISTER: u32 = 11; // a thread registers its receiver (first command of the thread)          (log only)
 pub const P_SUBMIT_ITEM: u32 = 12; // b = collect id of a further token item of the submit just logged     (log only)
+pub const P_RECV: u32 = 13; // the collector took a command out of a ring: a = kind | item<<8, b = collect id        (log only)
 pub const P_TLS_GONE: u32 = 10; // a command was issued after the thread-local sender was destroyed     (log only)
 
 pub struct Hooks {
